@@ -995,16 +995,19 @@ impl Exec {
     /// whatever happened to the chain and to the shared read caches since; it never panics.
     fn stale_reads(&mut self, why: &str) {
         let snaps = self.snaps.clone();
-        for (k, s) in snaps.iter().enumerate() {
-            let before = self.snap_answers[k].clone();
-            {
-                let live = self.node.shared.store();
-                for b in self.snap_raw[k].clone() {
-                    if live.get(COLUMN_BLOCK_HEADER, self.w.blocks[b].view.hash().as_slice()).is_none() {
-                        self.reread_after_delete.insert(b);
-                    }
+        // which blocks are read again through a snapshot after their deletion: decided for ALL
+        // snapshots before any answer is looked at (the labels of the twin comparison must not depend
+        // on where this function stops reporting)
+        for k in 0..snaps.len() {
+            let live = self.node.shared.store();
+            for b in self.snap_raw[k].clone() {
+                if live.get(COLUMN_BLOCK_HEADER, self.w.blocks[b].view.hash().as_slice()).is_none() {
+                    self.reread_after_delete.insert(b);
                 }
             }
+        }
+        for (k, s) in snaps.iter().enumerate() {
+            let before = self.snap_answers[k].clone();
             let now = self.snapshot_answers(s);
             self.res.probes.inc("snapshot_asked_again");
             for ((name, a), (_, b)) in before.iter().zip(now.iter()) {
@@ -1023,7 +1026,8 @@ impl Exec {
                     if self.deferred.is_none() {
                         self.deferred = Some(("C14".into(), format!("snapshot_answer_changed:{part}"), d));
                     }
-                    return;
+                    // the other snapshots are still asked: what a twin reads must not depend on what it reports
+                    break;
                 }
             }
         }
